@@ -1350,7 +1350,7 @@ impl ContextualHuffmanEncoder {
         }
 
         // Read trees
-        let mut trees = Vec::with_capacity(tree_count);
+        let mut trees = Vec::with_capacity(tree_count.min(data.len() / 4));
         for _ in 0..tree_count {
             if offset + 4 > data.len() {
                 return Err(ZiporaError::invalid_data("Truncated tree size"));
@@ -1366,6 +1366,14 @@ impl ContextualHuffmanEncoder {
 
             let tree = HuffmanTree::deserialize(tree_data)?;
             trees.push(tree);
+        }
+
+        // Encoding and decoding index `trees` with these values without further checks
+        if trees.is_empty() {
+            return Err(ZiporaError::invalid_data("Contextual Huffman data without trees"));
+        }
+        if context_map.values().any(|&tree_idx| tree_idx >= trees.len()) {
+            return Err(ZiporaError::invalid_data("Context map refers to a missing tree"));
         }
 
         Ok(Self {
@@ -1967,9 +1975,8 @@ impl ContextualHuffmanDecoder {
 
         // Decode first symbol with first tree
         let first_tree = &self.encoder.trees[0];
-        if let Ok(first_symbol) = self.decode_next_symbol(encoded_data, &mut byte_idx, &mut bit_pos, first_tree) {
-            result.push(first_symbol);
-        }
+        let first_symbol = self.decode_next_symbol(encoded_data, &mut byte_idx, &mut bit_pos, first_tree)?;
+        result.push(first_symbol);
 
         // Decode remaining symbols with context
         while result.len() < output_length && byte_idx < encoded_data.len() {
@@ -2001,11 +2008,9 @@ impl ContextualHuffmanDecoder {
         // Decode first two symbols with first tree
         let first_tree = &self.encoder.trees[0];
         for _ in 0..2.min(output_length) {
-            if let Ok(symbol) = self.decode_next_symbol(encoded_data, &mut byte_idx, &mut bit_pos, first_tree) {
-                result.push(symbol);
-            } else {
-                break;
-            }
+            // The context loop below needs both of them
+            let symbol = self.decode_next_symbol(encoded_data, &mut byte_idx, &mut bit_pos, first_tree)?;
+            result.push(symbol);
         }
 
         // Decode remaining symbols with 2-symbol context
